@@ -221,6 +221,15 @@ var c06Invalid = []struct {
 	}},
 	{"changelog-dangling", []string{"deb", "rpm"}, func(env *engine.Env, d fixture.Doc, f string) { d["changelog"] = tree(env).P("no-such-changelog.yaml") }},
 	{"changelog-malformed", []string{"deb", "rpm"}, func(env *engine.Env, d fixture.Doc, f string) { d["changelog"] = tree(env).P("etc/app.conf") }},
+	// a changelog that cannot be read, next to an entry the user ships at the path the deb changelog goes to
+	{"changelog-dangling-entry-at-its-path", []string{"deb", "rpm"}, func(env *engine.Env, d fixture.Doc, f string) {
+		d["changelog"] = tree(env).P("no-such-changelog.yaml")
+		d["contents"] = []any{map[string]any{"src": tree(env).P("doc/README"), "dst": fmt.Sprintf("/usr/share/doc/%v/changelog.Debian.gz", d["name"])}}
+	}},
+	{"changelog-malformed-entry-at-its-path", []string{"deb", "rpm"}, func(env *engine.Env, d fixture.Doc, f string) {
+		d["changelog"] = tree(env).P("etc/app.conf")
+		d["contents"] = []any{map[string]any{"src": tree(env).P("doc/README"), "dst": fmt.Sprintf("/usr/share/doc/%v/changelog.Debian.gz", d["name"]), "type": "doc"}}
+	}},
 	{"name-empty", Formats, func(env *engine.Env, d fixture.Doc, f string) { d["name"] = "" }},
 	{"content-collision-same-source", Formats, func(env *engine.Env, d fixture.Doc, f string) {
 		d["contents"] = []any{map[string]any{"src": tree(env).P("etc/app.conf"), "dst": "/x", "file_info": map[string]any{"mode": 0o600}},
